@@ -70,6 +70,17 @@ def threadFinished (s : ParSt) (t : Tid) : Bool :=
   | .done _ => true
   | _ => false
 
+/-- follow a schedule (the thread granted at each scheduling step) -/
+def ParSt.runSched (s : ParSt) : List Nat → Except String ParSt
+  | [] => .ok s
+  | t :: ts => match s.turn t with
+    | .ok s' => s'.runSched ts
+    | .error e => .error e
+
+/-- the initial state of a T2 replay: every thread about to run the `program` of its statements -/
+def parInit (C : Ctx) (progs : List (List Stmt)) : ParSt :=
+  { env := {}, thr := progs.map fun p => program C p {}, started := List.replicate progs.length false }
+
 structure T2Case where
   id : String
   n : Nat
@@ -96,14 +107,7 @@ def parseT2 (line : String) : Option T2Case :=
 def T2Case.run (c : T2Case) : String :=
   let C : Ctx := { W := { addr := fun x => c.addr.getD x 0, fuel := 64 }, colls := c.colls }
   let nt := c.progs.length
-  let s0 : ParSt := { env := {}, thr := c.progs.map fun p => program C p {},
-                      started := List.replicate nt false }
-  let rec go (s : ParSt) : List Nat → Except String ParSt
-    | [] => .ok s
-    | t :: ts => match s.turn t with
-      | .ok s' => go s' ts
-      | .error e => .error e
-  match go s0 c.sched with
+  match (parInit C c.progs).runSched c.sched with
   | .error e => c.id ++ ";model-error;" ++ e
   | .ok s =>
     let tr := " ".intercalate s.trace.reverse
